@@ -668,6 +668,7 @@ def sliceIndexes : List Value → Res SliceIdx
     let list := a0.unmark
     let lenKnown : Res (Option Nat) :=
       if isTupleTy list.ty then (lengthInt list).map some
+      else if !list.isKnown then .ok none
       else
         match Value.length list with
         | .ok len => if len.isKnown then (lengthInt list).map some else .ok none
@@ -795,12 +796,14 @@ def zipmapLoop (values : Value) : List Value → Nat → List (String × Value) 
   | [], _, output, retMarks => .ok (output, retMarks)
   | v0 :: rest, i, output, retMarks =>
     let v := v0.unmark
-    match Value.index values (intVal i) with
-    | .ok val =>
-      (match asString v with
-       | .ok k => zipmapLoop values rest (i + 1) (amInsert k val output) (unionMarks retMarks v0.marks)
-       | r => Res.cast r)
-    | r => Res.cast r
+    if v.isNull then .err "keys list has null value"
+    else
+      match Value.index values (intVal i) with
+      | .ok val =>
+        (match asString v with
+         | .ok k => zipmapLoop values rest (i + 1) (amInsert k val output) (unionMarks retMarks v0.marks)
+         | r => Res.cast r)
+      | r => Res.cast r
 
 def zipmapImpl (E : Env) : Fn.ImplFn
   | keys0 :: values0 :: _, retTy =>
